@@ -572,8 +572,15 @@ func (m *Memberlist) resetNodes() {
 	// Move dead nodes, but respect gossip to the dead interval
 	deadIdx := moveDeadNodes(m.nodes, m.config.GossipToTheDeadTime)
 
-	// Deregister the dead nodes
+	// Deregister the dead nodes. The local node's own record is never
+	// removed, even long after it has left: LocalNode, UpdateNode and Leave
+	// rely on it being there.
 	for i := deadIdx; i < len(m.nodes); i++ {
+		if m.nodes[i].Name == m.config.Name {
+			m.nodes[deadIdx], m.nodes[i] = m.nodes[i], m.nodes[deadIdx]
+			deadIdx++
+			continue
+		}
 		delete(m.nodeMap, m.nodes[i].Name)
 		m.nodes[i] = nil
 	}
